@@ -34,6 +34,7 @@ RULE = ('C04\'s (reference, actual, options) generator through '
         'distinct by case hash.')
 RULE += ' ' + 'Also: assertTextFilesCorrect with a passing first pair (an excused line when an ignore-substring is in force) before the pair under test; a third of the text cases after an earlier, longer failure of the same assertion in the same tmp_dir; in half of the cases tmp_dir is configured with set_defaults before the directory exists.'
 RULE += ' ' + 'Round 7: with no reference, the file offered for initialising it must hold the string exactly; in half of the assertTextFilesCorrect cases a third pair, after the pair under test, fails too, its reference sharing the base name (another directory).'
+RULE += ' ' + 'Round 8: in a third of the cases regeneration is switched on for every kind and off again for the kind the assertion names.'
 ASSUMPTIONS = ['the raw-actual file written for a string actual is compared '
                'line by line; a final newline is not significant (C04)']
 
